@@ -167,7 +167,7 @@ func main() {
 	for _, hs := range hist.SplitHistories(hx.ReadLines(o.Corpus + "/histories.ops")) {
 		run(hs, "corpus")
 	}
-	// probe of finding C03-F1: DELETE + CREATE of one name within a clock second
+	// DELETE + CREATE of one name within a clock second (finding C03-F1 until repair 090198b; kept as a regression probe)
 	run([]hist.Op{{Kind: "create", Args: []string{"tmp"}}, {Kind: "append", Args: []string{"tmp", "1"}}, {Kind: "delete", Args: []string{"tmp"}},
 		{Kind: "create", Args: []string{"tmp"}}, {Kind: "append", Args: []string{"tmp", "2"}}}, "probe:C03-F1")
 	rng := hx.NewRng(o.Seed)
